@@ -287,4 +287,303 @@ theorem hdr_len (lt : LenT) (n : Nat) (h : lt.inDom n) :
     simpa using this
 
 
+
+/-! ## the element / array induction -/
+
+theorem utf8_roundtrip (s : String) : utf8Decode (utf8 s) = some s := by
+  unfold utf8Decode utf8
+  have : s.toByteArray.data.toList.toByteArray = s.toByteArray := by
+    apply ByteArray.ext; simp [List.data_toByteArray]
+  rw [this]
+  simp [String.fromUTF8?, s.isValidUTF8]
+  rfl
+
+/-- what the modules modelling the custom types must establish about their codec -/
+structure CustomLaw (cc : CustomCodec) (cw : CustomT → Value → Prop) : Prop where
+  rt : ∀ c v rest, cw c v →
+    ∃ bs, cc.enc c v = .ok bs ∧ bs ≠ [] ∧ cc.dec c (bs ++ rest) = .ok (v, rest)
+  prefixErr : ∀ c v bs, cw c v → cc.enc c v = .ok bs →
+    ∀ p, p <+: bs → p ≠ bs → ∃ e, cc.dec c p = .error e
+
+/-- the codec with no custom types: every use raises `TypeError` -/
+def noCustomCodec : CustomCodec where
+  enc := fun _ _ => .error .type
+  dec := fun _ _ => .error .type
+
+/-- no value is in the domain of a custom type when none is plugged in -/
+def noCustomDom : CustomT → Value → Prop := fun _ _ => False
+
+theorem noCustomLaw : CustomLaw noCustomCodec noCustomDom :=
+  ⟨fun _ _ _ h => h.elim, fun _ _ _ h => h.elim⟩
+
+theorem item_custom {cc cw} (law : CustomLaw cc cw) (c : CustomT) (v : Value) (h : cw c v) :
+    Item (cc.enc c) (cc.dec c) v := by
+  obtain ⟨bs, h1, h2, _⟩ := law.rt c v [] h
+  refine ⟨bs, h1, h2, fun rest => ?_, law.prefixErr c v bs h h1⟩
+  obtain ⟨bs', h1', _, h3'⟩ := law.rt c v rest h
+  rw [h1] at h1'; cases h1'; exact h3'
+
+theorem item_int (t : IntT) (v : Int) (h : t.inDom v) (enc : Value → Except Err Bytes)
+    (dec : Bytes → Except Err (Value × Bytes)) (henc : enc (.int v) = t.pack v)
+    (hdec : ∀ bs, dec bs = (do let (v, r) ← t.unpack bs; pure (.int v, r))) :
+    Item enc dec (.int v) := by
+  obtain ⟨bs, hb, _⟩ := t.pack_spec v h
+  exact ⟨bs, by rw [henc, hb], (hdr_int t v bs h hb).map Value.int dec hdec⟩
+
+theorem item_varint (mx : Nat) (v : Int) (h0 : 0 ≤ v) (h : v.toNat < 2 ^ (7 * (mx + 1)))
+    (enc : Value → Except Err Bytes)
+    (dec : Bytes → Except Err (Value × Bytes)) (henc : enc (.int v) = encVarIntZ v)
+    (hdec : ∀ bs, dec bs = (do let (n, r) ← decVarInt mx bs; pure (.int n, r))) :
+    Item enc dec (.int v) := by
+  refine ⟨encVarInt v.toNat, by rw [henc]; simp [encVarIntZ]; omega, ?_⟩
+  have := (hdr_varint mx v.toNat h).map (fun n : Nat => Value.int n) dec hdec
+  simpa [Int.toNat_of_nonneg h0] using this
+
+theorem item_bool (cc : CustomCodec) (b : Bool) :
+    Item (encode cc .bool) (decode cc .bool) (.bool b) := by
+  refine ⟨_, rfl, by simp, fun rest => ?_, fun p hp hne => ?_⟩
+  · cases b <;> simp [decode, takeN, bind, Except.bind, pure, Except.pure]
+  · have : p = [] := by
+      have := prefix_length_lt hp hne
+      rw [List.length_singleton] at this
+      exact List.eq_nil_of_length_eq_zero (by omega)
+    subst this
+    exact ⟨.struct, rfl⟩
+
+theorem item_uuid (cc : CustomCodec) (b : Bytes) (h : b.length = 16) :
+    Item (encode cc .uuid) (decode cc .uuid) (.bytes b) := by
+  refine ⟨b, by simp [encode, h], ?_, fun rest => ?_, fun p hp hne => ?_⟩
+  · intro e; rw [e] at h; simp at h
+  · have h1 : List.take 16 (b ++ rest) = b := by rw [← h]; simp
+    have h2 : List.drop 16 (b ++ rest) = rest := by rw [← h]; simp
+    have h3 : 16 ≤ (b ++ rest).length := by simp; omega
+    rw [decode, if_pos h3, h1, h2]
+  · have := prefix_length_lt hp hne
+    exact ⟨.value, by simp [decode]; omega⟩
+
+theorem item_string (cc : CustomCodec) (s : String) (h : (utf8 s).length < 2 ^ 31) :
+    Item (encode cc .string) (decode cc .string) (.str s) := by
+  refine ⟨_, rfl, ?_⟩
+  refine (hdr_varint 5 (utf8 s).length (by omega)).body
+    (fun n r => if r.length < n then .error .eof else
+      match utf8Decode (r.take n) with
+      | some s => pure (Value.str s, r.drop n)
+      | none => .error .decode) (utf8 s) (.str s) ?_ ?_ _ (fun _ => rfl)
+  · intro rest
+    simp [utf8_roundtrip, pure, Except.pure]
+  · intro p hp hne
+    have := prefix_length_lt hp hne
+    exact ⟨.eof, by simp [this]⟩
+
+theorem item_bytesVarint (cc : CustomCodec) (b : Bytes) (h : b.length < 2 ^ 31) :
+    Item (encode cc .bytesVarint) (decode cc .bytesVarint) (.bytes b) := by
+  refine ⟨_, rfl, ?_⟩
+  refine (hdr_varint 5 b.length (by omega)).body
+    (fun n r => do let (h, r') ← takeN n r; pure (Value.bytes h, r')) b (.bytes b) ?_ ?_ _ (fun _ => rfl)
+  · intro rest
+    simp [takeN_append, bind, Except.bind, pure, Except.pure]
+  · intro p hp hne
+    have := prefix_length_lt hp hne
+    exact ⟨.struct, by simp [takeN_short _ _ this, bind, Except.bind]⟩
+
+theorem item_bytesShort (cc : CustomCodec) (b : Bytes) (h : b.length < 2 ^ 15) :
+    Item (encode cc .bytesShort) (decode cc .bytesShort) (.bytes b) := by
+  have hd : IntT.i16.inDom (b.length : Int) := by
+    simp [IntT.inDom, IntT.signed, IntT.width]; omega
+  obtain ⟨hb, hp, _⟩ := IntT.i16.pack_spec _ hd
+  refine ⟨hb ++ b, by rw [encode, hp]; rfl, ?_⟩
+  refine (hdr_int _ _ _ hd hp).body
+    (fun (n : Int) r => if n < 0 then .error .struct else do
+      let (h, r') ← takeN n.toNat r; pure (Value.bytes h, r')) b (.bytes b) ?_ ?_ _ (fun bs => by rw [decode])
+  · intro rest
+    have : ¬ ((b.length : Int) < 0) := by omega
+    simp [this, takeN_append, bind, Except.bind, pure, Except.pure]
+  · intro p hp hne
+    have := prefix_length_lt hp hne
+    have h0 : ¬ ((b.length : Int) < 0) := by omega
+    exact ⟨.struct, by simp [h0, takeN_short _ _ this, bind, Except.bind]⟩
+
+theorem wellTyped_array {cw lt t vs} (h : WellTyped cw (.array lt t) (.list vs)) :
+    lt.inDom vs.length ∧ ∀ v ∈ vs, WellTyped cw t v := by
+  cases lt <;> simpa [WellTyped, LenT.inDom] using h
+
+/-- every in-domain value of a self-delimiting type is an item of `(encode, decode)` -/
+theorem item_main {cc cw} (law : CustomLaw cc cw) : ∀ (t : WType), t.selfDelimiting = true →
+    ∀ v, WellTyped cw t v → Item (encode cc t) (decode cc t) v := by
+  intro t
+  induction t with
+  | bool => intro _ v hw; cases v <;> simp [WellTyped] at hw; exact item_bool cc _
+  | int t =>
+    intro _ v hw; cases v <;> simp [WellTyped] at hw
+    exact item_int t _ hw _ _ rfl (fun _ => rfl)
+  | varint =>
+    intro _ v hw; cases v <;> simp [WellTyped] at hw
+    exact item_varint 5 _ hw.1 (by omega) _ _ rfl (fun _ => rfl)
+  | varlong =>
+    intro _ v hw; cases v <;> simp [WellTyped] at hw
+    exact item_varint 10 _ hw.1 (by omega) _ _ rfl (fun _ => rfl)
+  | string => intro _ v hw; cases v <;> simp [WellTyped] at hw; exact item_string cc _ hw
+  | uuid => intro _ v hw; cases v <;> simp [WellTyped] at hw; exact item_uuid cc _ hw
+  | angle =>
+    intro _ v hw; cases v <;> simp [WellTyped] at hw
+    exact item_int .u8 _ (by simp [IntT.inDom, IntT.signed, IntT.width]; omega) _ _ rfl (fun _ => rfl)
+  | fixed base bits =>
+    intro _ v hw; cases v <;> simp [WellTyped] at hw
+    exact item_int base _ hw _ _ rfl (fun _ => rfl)
+  | bytesVarint => intro _ v hw; cases v <;> simp [WellTyped] at hw; exact item_bytesVarint cc _ hw
+  | bytesShort => intro _ v hw; cases v <;> simp [WellTyped] at hw; exact item_bytesShort cc _ hw
+  | trailing => intro hs; simp [WType.selfDelimiting] at hs
+  | array lt t ih =>
+    intro hs v hw
+    cases v <;> try (simp [WellTyped] at hw; done)
+    rename_i vs
+    obtain ⟨hl, hv⟩ := wellTyped_array hw
+    have hs' : t.selfDelimiting = true := by simpa [WType.selfDelimiting] using hs
+    obtain ⟨hb, hb1, hb2⟩ := hdr_len lt vs.length hl
+    obtain ⟨body, e1, e2, e3⟩ := items_array (encode cc t) (decode cc t) vs
+      (fun v hm => ih hs' v (hv v hm))
+    refine ⟨hb ++ body, by simp [encode, hb1, e1, bind, Except.bind, pure, Except.pure], ?_⟩
+    refine hb2.body (fun n r => do let (vs, r') ← repeatDec (decode cc t) n r; pure (Value.list vs, r'))
+      body (.list vs) ?_ ?_ _ (fun _ => rfl)
+    · intro rest; simp [e2, bind, Except.bind, pure, Except.pure]
+    · intro p hp hne
+      obtain ⟨e, he⟩ := e3 p hp hne
+      exact ⟨e, by simp [he, bind, Except.bind]⟩
+  | custom c =>
+    intro _ v hw
+    have hw' : cw c v := by cases v <;> simpa [WellTyped] using hw
+    have := item_custom law c v hw'
+    obtain ⟨bs, h1, h2⟩ := this
+    exact ⟨bs, by cases v <;> simpa [encode] using h1, h2.1, fun rest => by
+      rw [decode]; exact h2.2.1 rest, fun p hp hne => by rw [decode]; exact h2.2.2 p hp hne⟩
+
+theorem encEach_total (f : Value → Except Err Bytes) : ∀ vs : List Value,
+    (∀ v ∈ vs, ∃ bs, f v = .ok bs) → ∃ bs, encEach f vs = .ok bs := by
+  intro vs
+  induction vs with
+  | nil => intro _; exact ⟨[], rfl⟩
+  | cons v vs ih =>
+    intro h
+    obtain ⟨a, ha⟩ := h v List.mem_cons_self
+    obtain ⟨b, hb⟩ := ih (fun w hw => h w (List.mem_cons_of_mem _ hw))
+    exact ⟨a ++ b, by simp [encEach, ha, hb, bind, Except.bind, pure, Except.pure]⟩
+
+/-- the body of an array is the concatenation of the element encodings, in order -/
+theorem encEach_flatten (f : Value → Except Err Bytes) (g : Value → Bytes) : ∀ vs : List Value,
+    (∀ v ∈ vs, f v = .ok (g v)) → encEach f vs = .ok (vs.map g).flatten := by
+  intro vs
+  induction vs with
+  | nil => intro _; rfl
+  | cons v vs ih =>
+    intro h
+    have ha := h v List.mem_cons_self
+    have hb := ih (fun w hw => h w (List.mem_cons_of_mem _ hw))
+    simp [encEach, ha, hb, bind, Except.bind, pure, Except.pure]
+
+theorem encode_total {cc cw} (law : CustomLaw cc cw) : ∀ (t : WType) (v : Value),
+    WellTyped cw t v → ∃ bs, encode cc t v = .ok bs := by
+  intro t
+  induction t with
+  | trailing => intro v hw; cases v <;> simp [WellTyped] at hw; exact ⟨_, rfl⟩
+  | array lt t ih =>
+    intro v hw
+    cases v <;> try (simp [WellTyped] at hw; done)
+    rename_i vs
+    obtain ⟨hl, hv⟩ := wellTyped_array hw
+    obtain ⟨hb, hb1, _⟩ := hdr_len lt vs.length hl
+    obtain ⟨body, e1⟩ := encEach_total (encode cc t) vs (fun v hm => ih v (hv v hm))
+    exact ⟨hb ++ body, by simp [encode, hb1, e1, bind, Except.bind, pure, Except.pure]⟩
+  | _ =>
+    intro v hw
+    obtain ⟨bs, h, _⟩ := item_main law _ rfl v hw
+    exact ⟨bs, h⟩
+
+/-! ## exact arithmetic of `Angle` and `FixedPoint` -/
+
+theorem roundHalfEven_cases (N D : Int) :
+    (roundHalfEven N D = N / D ∧ (2 * (N % D) < D ∨ (2 * (N % D) = D ∧ (N / D) % 2 = 0))) ∨
+    (roundHalfEven N D = N / D + 1 ∧ (2 * (N % D) > D ∨ (2 * (N % D) = D ∧ (N / D) % 2 ≠ 0))) := by
+  unfold roundHalfEven
+  simp only
+  split
+  · left; exact ⟨rfl, Or.inl ‹_›⟩
+  · split
+    · right; exact ⟨rfl, Or.inl ‹_›⟩
+    · have : 2 * (N % D) = D := by omega
+      split
+      · left; exact ⟨rfl, Or.inr ⟨this, ‹_›⟩⟩
+      · right; exact ⟨rfl, Or.inr ⟨this, ‹_›⟩⟩
+
+theorem roundHalfEven_near (N D : Int) (hD : 0 < D) :
+    -D ≤ 2 * roundHalfEven N D * D - 2 * N ∧ 2 * roundHalfEven N D * D - 2 * N ≤ D := by
+  have hdm := Int.emod_add_mul_ediv N D
+  have h0 := Int.emod_nonneg N (by omega : D ≠ 0)
+  have h1 := Int.emod_lt_of_pos N hD
+  rcases roundHalfEven_cases N D with ⟨e, h⟩ | ⟨e, h⟩
+  · rw [e]
+    have : 2 * (N / D) * D = 2 * (D * (N / D)) := by rw [Int.mul_assoc, Int.mul_comm (N / D) D]
+    rw [this]
+    omega
+  · rw [e]
+    have : 2 * (N / D + 1) * D = 2 * (D * (N / D)) + 2 * D := by
+      rw [Int.mul_assoc, Int.add_mul, Int.mul_add, Int.mul_comm (N / D) D]; simp
+    rw [this]
+    omega
+
+theorem roundHalfEven_tie (N D : Int) (h : 2 * (N % D) = D) :
+    roundHalfEven N D % 2 = 0 := by
+  rcases roundHalfEven_cases N D with ⟨e, h'⟩ | ⟨e, h'⟩ <;> rw [e] <;> omega
+
+/-- the un-reduced rounding of `Angle.send` lies in `[0, 256]` — 256 included -/
+theorem angle_raw_range (p q : Int) (hq : 0 < q) :
+    0 ≤ roundHalfEven (256 * (p % (360 * q))) (360 * q) ∧
+    roundHalfEven (256 * (p % (360 * q))) (360 * q) ≤ 256 := by
+  have hD : 0 < 360 * q := by omega
+  have h0 := Int.emod_nonneg p (by omega : 360 * q ≠ 0)
+  have h1 := Int.emod_lt_of_pos p hD
+  generalize p % (360 * q) = r at *
+  have hf0 : 0 ≤ 256 * r / (360 * q) := Int.ediv_nonneg (by omega) (by omega)
+  have hf1 : 256 * r / (360 * q) < 256 := Int.ediv_lt_of_lt_mul hD (by omega)
+  rcases roundHalfEven_cases (256 * r) (360 * q) with ⟨e, _⟩ | ⟨e, _⟩ <;> rw [e] <;> omega
+
+theorem angleStep_range (p q : Int) : 0 ≤ angleStep p q ∧ angleStep p q < 256 := by
+  unfold angleStep; omega
+
+theorem angle_near (p q : Int) (hq : 0 < q) :
+    ∃ k : Int, (k = 0 ∨ (k = 1 ∧ angleStep p q = 0)) ∧
+      -(360 * q) ≤ 2 * (360 * (angleStep p q + 256 * k) * q - 256 * (p % (360 * q))) ∧
+      2 * (360 * (angleStep p q + 256 * k) * q - 256 * (p % (360 * q))) ≤ 360 * q := by
+  have hD : 0 < 360 * q := by omega
+  obtain ⟨r0, r1⟩ := angle_raw_range p q hq
+  obtain ⟨n0, n1⟩ := roundHalfEven_near (256 * (p % (360 * q))) (360 * q) hD
+  unfold angleStep
+  generalize roundHalfEven (256 * (p % (360 * q))) (360 * q) = u at *
+  generalize p % (360 * q) = r at *
+  by_cases hu : u = 256
+  · refine ⟨1, Or.inr ⟨rfl, by omega⟩, ?_⟩
+    have : u % 256 + 256 * 1 = u := by omega
+    rw [this]
+    constructor <;> grind
+  · refine ⟨0, Or.inl rfl, ?_⟩
+    have : u % 256 + 256 * 0 = u := by omega
+    rw [this]
+    constructor <;> grind
+
+theorem fixed_tdiv (a q : Int) (hq : 0 < q) :
+    (0 ≤ a → 0 ≤ a.tdiv q ∧ a.tdiv q * q ≤ a ∧ a < a.tdiv q * q + q) ∧
+    (a ≤ 0 → a.tdiv q ≤ 0 ∧ a ≤ a.tdiv q * q ∧ a.tdiv q * q - q < a) := by
+  have key : ∀ b : Int, 0 ≤ b → 0 ≤ b.tdiv q ∧ b.tdiv q * q ≤ b ∧ b < b.tdiv q * q + q := by
+    intro b hb
+    have h1 := Int.tmod_add_mul_tdiv b q
+    have h2 := Int.tmod_nonneg q hb
+    have h3 := Int.tmod_lt_of_pos b hq
+    have h4 : 0 ≤ b.tdiv q := Int.tdiv_nonneg hb (by omega)
+    rw [Int.mul_comm q] at h1
+    omega
+  refine ⟨key a, fun ha => ?_⟩
+  have := key (-a) (by omega)
+  rw [Int.neg_tdiv, Int.neg_mul] at this
+  omega
+
+
 end PyCraft
